@@ -17,21 +17,70 @@ import (
 type Solver struct {
 	Name string
 	Args func(file string, timeoutS int) []string
+	// AxRec: run on the script with every recursive definition turned into a declaration plus its defining
+	// equation as a triggered axiom (solvers unfold define-fun-rec eagerly and can diverge on goals that need no
+	// unfolding). The axiom says no more than the definition, so "unsat" stands; any other answer is ignored.
+	AxRec bool
 }
 
 var solvers = []Solver{
-	{"z3-new", func(f string, t int) []string { return []string{"z3-new", fmt.Sprintf("-T:%d", t), "-smt2", f} }},
-	{"z3", func(f string, t int) []string { return []string{"z3", fmt.Sprintf("-T:%d", t), "-smt2", f} }},
+	{"z3-new", func(f string, t int) []string { return []string{"z3-new", fmt.Sprintf("-T:%d", t), "-smt2", f} }, false},
+	{"z3", func(f string, t int) []string { return []string{"z3", fmt.Sprintf("-T:%d", t), "-smt2", f} }, false},
 	// pure E-matching configurations: much faster on obligations with many triggered quantifiers
 	{"z3-new-ematch", func(f string, t int) []string {
 		return []string{"z3-new", fmt.Sprintf("-T:%d", t), "smt.mbqi=false", "auto_config=false", "-smt2", f}
-	}},
+	}, false},
 	{"z3-ematch", func(f string, t int) []string {
 		return []string{"z3", fmt.Sprintf("-T:%d", t), "smt.mbqi=false", "auto_config=false", "-smt2", f}
-	}},
+	}, false},
 	{"cvc5", func(f string, t int) []string {
 		return []string{"cvc5", fmt.Sprintf("--tlimit=%d", t*1000), "--lang=smt2", f}
-	}},
+	}, false},
+	{"z3-new-axrec", func(f string, t int) []string {
+		return []string{"z3-new", fmt.Sprintf("-T:%d", t), "smt.mbqi=false", "auto_config=false", "-smt2", f}
+	}, true},
+}
+
+// axiomatizeRec rewrites (define-fun-rec f ((a S)...) R body) lines into (declare-fun f (S...) R) and
+// (assert (forall ((a S)...) (! (= (f a...) body) :pattern ((f a...))))).
+func axiomatizeRec(script string) (string, bool) {
+	if !strings.Contains(script, "(define-fun-rec ") {
+		return "", false
+	}
+	var out []string
+	for _, l := range strings.Split(script, "\n") {
+		if !strings.HasPrefix(l, "(define-fun-rec ") {
+			out = append(out, l)
+			continue
+		}
+		toks := sexprTokens(l)
+		// ( define-fun-rec name ( (a S) ... ) R body )
+		name := toks[2]
+		pEnd := skipSexpr(toks, 3)
+		var names, sorts []string
+		for i := 4; i < pEnd-1; {
+			j := skipSexpr(toks, i)
+			names = append(names, toks[i+1])
+			sorts = append(sorts, strings.Join(toks[i+2:j-1], " "))
+			i = j
+		}
+		rEnd := skipSexpr(toks, pEnd)
+		ret := strings.Join(toks[pEnd:rEnd], " ")
+		bEnd := skipSexpr(toks, rEnd)
+		body := strings.Join(toks[rEnd:bEnd], " ")
+		if len(names) == 0 {
+			out = append(out, l)
+			continue
+		}
+		var binds []string
+		for i := range names {
+			binds = append(binds, "("+names[i]+" "+sorts[i]+")")
+		}
+		app := "(" + name + " " + strings.Join(names, " ") + ")"
+		out = append(out, "(declare-fun "+name+" ("+strings.Join(sorts, " ")+") "+ret+")")
+		out = append(out, "(assert (forall ("+strings.Join(binds, " ")+") (! (= "+app+" "+body+") :pattern ("+app+"))))")
+	}
+	return strings.Join(out, "\n"), true
 }
 
 func (o *Obligation) Script() string {
@@ -120,18 +169,39 @@ func Discharge(o *Obligation, dir string, timeoutS int, all bool) {
 		timeoutS = 3 // vacuity guards only need a quick sat / unsat; unknown is not a failure
 	}
 	file := filepath.Join(dir, fmt.Sprintf("%s_%d.smt2", mangle(o.Name), atomic.AddInt64(&smtSeq, 1)))
-	os.WriteFile(file, []byte(o.Script()), 0o644)
+	script := o.Script()
+	os.WriteFile(file, []byte(script), 0o644)
+	axFile := ""
+	if ax, ok := axiomatizeRec(script); ok {
+		axFile = strings.TrimSuffix(file, ".smt2") + "_axrec.smt2"
+		os.WriteFile(axFile, []byte(ax), 0o644)
+	}
 	ctx, cancel := context.WithCancel(context.Background())
 	defer cancel()
 	ch := make(chan solveOut, len(solvers))
+	nrun := 0
 	for _, sv := range solvers {
-		go func(sv Solver) { ch <- runSolver(ctx, sv, file, timeoutS) }(sv)
+		f := file
+		if sv.AxRec {
+			if axFile == "" {
+				continue
+			}
+			f = axFile
+		}
+		nrun++
+		go func(sv Solver, f string) {
+			r := runSolver(ctx, sv, f, timeoutS)
+			if sv.AxRec && r.status != "unsat" {
+				r.status = "unknown"
+			}
+			ch <- r
+		}(sv, f)
 	}
 	var outs []solveOut
 	var sat, unsat *solveOut
 	var grace <-chan time.Time
 	graceOver := false
-	for range solvers {
+	for k := 0; k < nrun; k++ {
 		var r solveOut
 		if grace != nil {
 			select {
